@@ -33,7 +33,7 @@ type c15Ev struct {
 }
 
 type c15Op struct {
-	K   string  `json:"k"`             // sub ev brk reload
+	K   string  `json:"k"`             // sub ev evs noop bulk churn brk reload
 	P   int     `json:"p,omitempty"`   // prefix index
 	Key int     `json:"key,omitempty"` // key index
 	Val int     `json:"v,omitempty"`   // value index
@@ -43,20 +43,79 @@ type c15Op struct {
 	L   int     `json:"l,omitempty"`   // sub: change listener behaviour: 0 passive, 1 reads Values(), 2 subscribes the same key again, 3 subscribes another key of the same cluster
 	At  int     `json:"at,omitempty"`  // sub, l=2/3: the listener subscribes during its At-th and (At+3)-th invocation
 	Md  string  `json:"md,omitempty"`  // brk: stall close cancel error
-	N   int     `json:"n,omitempty"`   // sub/reload: failing Gets first
+	N   int     `json:"n,omitempty"`   // sub/reload: failing Gets first; bulk/churn: number of keys/events
+	H   int     `json:"h,omitempty"`   // sub/reload: Gets that hang until the request time-out first
+	O2  bool    `json:"o2,omitempty"`  // sub: every option is passed twice (variadic form with several options)
 	Mid []c15Ev `json:"mid,omitempty"` // sub/reload: events on prefix P between the snapshot and the watch
 	Gap []c15Ev `json:"gap,omitempty"` // brk: events on prefix P after the streams ended, before the watches are re-created
 	Sch []int   `json:"sch,omitempty"` // brk: which replaying watcher receives its next response (then first-come)
 }
 
 type c15Case struct {
-	Rev0  int     `json:"rev0"`
+	Rev0  int64   `json:"rev0"`
+	A     int     `json:"a,omitempty"` // alphabet of keys and values
 	Batch bool    `json:"b,omitempty"`
 	Ops   []c15Op `json:"ops"`
 }
 
-func c15Key(p, k int) string { return fmt.Sprintf("%s/%d", c15Prefixes[p], 100+k) }
-func c15Val(v int) string    { return fmt.Sprintf("10.0.0.%d:80", v) }
+// Alphabets of subscription keys, etcd key suffixes and published values (case field "a").
+// c15Prefixes/c15Alpha are set at the start of every case (cases run one at a time).
+var c15Alpha int
+
+func c15SetAlphabet(a int) {
+	c15Alpha = a
+	base := "svc"
+	switch a {
+	case 1:
+		base = "a.b-c_d"
+	case 2:
+		base = "svc%d%s%!v%%" // format verbs
+	case 3:
+		base = "svc*[x]?+(y)|^$.{1}\\" // glob / regexp metacharacters
+	case 4:
+		base = "服务/üñí" // multi-byte, nested path
+	case 5:
+		c15Prefixes = []string{"Svc", "svc", "svC"} // differ by case only
+		return
+	case 6:
+		base = "p" + strings.Repeat("x", 300)
+	}
+	c15Prefixes = []string{base, base + "2", base + "9"}
+}
+
+func c15Key(p, k int) string {
+	switch c15Alpha {
+	case 2:
+		return fmt.Sprintf("%s/%%d%d", c15Prefixes[p], 100+k)
+	case 4:
+		return fmt.Sprintf("%s/節點/%d", c15Prefixes[p], 100+k) // suffix with a further separator
+	case 7:
+		return fmt.Sprintf("%s/\xfe%d", c15Prefixes[p], 100+k) // invalid UTF-8
+	}
+	return fmt.Sprintf("%s/%d", c15Prefixes[p], 100+k)
+}
+
+func c15Val(v int) string {
+	switch c15Alpha {
+	case 2:
+		return fmt.Sprintf("h%%s%%d-%d:80%%", v)
+	case 3:
+		return fmt.Sprintf("host %d, port;80 *?[", v)
+	case 4:
+		return fmt.Sprintf("節點-%d:80", v)
+	case 6:
+		if v == 0 {
+			return "" // a publisher may register an empty value
+		}
+		return strings.Repeat(fmt.Sprintf("%d", v%10), 2000) + fmt.Sprintf(".%d:80", v)
+	case 7:
+		return fmt.Sprintf("\xff\xfe%d:80", v)
+	}
+	if v >= 1000 {
+		return fmt.Sprintf("10.9.%d.%d:80", v/250, v%250)
+	}
+	return fmt.Sprintf("10.0.0.%d:80", v)
+}
 
 var c15Seq atomic.Int64
 
@@ -282,18 +341,27 @@ func c15Interp(t *testing.T, c c15Case) (v kit.Verdict) {
 	classes := map[string]bool{}
 	nontrivial := false
 	m := &c15Model{}
+	c15SetAlphabet(c.A)
+	if c.A != 0 {
+		classes[fmt.Sprintf("alphabet-%d", c.A)] = true
+	}
+	if c.Rev0 > 1<<31 {
+		classes["revision>2^31"] = true
+	}
 	for p := range m.store {
 		m.store[p], m.lastVal[p] = map[string]string{}, map[string]string{}
 	}
 	res := kit.Bubble(t, func() {
 		eps := fmt.Sprintf("c15-%d.verif:2379", c15Seq.Add(1))
-		fake := internal.NewC15Fake(int64(c.Rev0), c.Batch)
+		fake := internal.NewC15Fake(c.Rev0, c.Batch)
 		internal.C15Inject([]string{eps}, fake)
 		defer func() {
 			internal.C15Shutdown([]string{eps})
 			fake.Release()
 		}()
 		reloads := 0
+		var reloadOp func(what string, o c15Op) bool
+		var pump func(sched []int)
 		addedInOutage := [3]map[string]int{{}, {}, {}} // key -> outage number (reloads so far) of its missed put
 
 		// Re-entrant change listeners. On the unmodified tree every notification path (watch event,
@@ -444,9 +512,64 @@ func c15Interp(t *testing.T, c c15Case) (v kit.Verdict) {
 			return true
 		}
 
+		// reloadOp: the reconnect callback; returns false when the case is over (fail set).
+		reloadOp = func(what string, o c15Op) bool {
+			p := o.P
+			if len(m.subs) == 0 {
+				return true
+			}
+			if o.N > 0 {
+				classes["get-errors"] = true
+				fake.FailGets(o.N)
+			}
+			if o.H > 0 {
+				classes["get-black-hole-until-timeout"] = true
+				fake.HangGets(o.H)
+			}
+			fake.MarkStale() // reload stops the current watchers: their streams are abandoned
+			var mids []c15LogEv
+			// model: every watched prefix is snapshotted; mid events hit prefix p after its snapshot
+			for q := range m.store {
+				if hasSub(m, q) {
+					m.loadShadow(q)
+				}
+			}
+			for _, s := range m.subs {
+				if s.dirty && s.x {
+					for val := range s.touched {
+						m.xUnknown(s, val)
+					}
+				}
+				s.dirty = false
+				s.touched = map[string]bool{}
+			}
+			if hasSub(m, p) {
+				for _, e := range o.Mid {
+					mids = append(mids, m.toggle(p, e, false))
+				}
+			}
+			if len(mids) > 0 {
+				classes["events-between-snapshot-and-watch"] = true
+				fake.AfterNextGet(c15Prefixes[p]+"/", func() {
+					for _, e := range mids {
+						fake.Apply(e.del, e.key, e.val, false)
+					}
+				})
+			}
+			reloads++
+			if !internal.C15Reload([]string{eps}, fake) {
+				fail = what + ": harness: no cluster to reload"
+				return false
+			}
+			time.Sleep(time.Duration(o.N+5*o.H)*time.Second + 50*time.Millisecond)
+			kit.Wait()
+			pump(nil) // the new watchers replay the events after their snapshots
+			return check(what, nil)
+		}
+
 		// pump hands pending replays to the watchers one response at a time
 		// (order = sched, then first-come) and feeds the model in the same order.
-		pump := func(sched []int) {
+		pump = func(sched []int) {
 			for i := 0; fake.Pending() > 0; i++ {
 				pick := 0
 				if i < len(sched) {
@@ -524,6 +647,111 @@ func c15Interp(t *testing.T, c c15Case) (v kit.Verdict) {
 				if !check(what, nil) {
 					return
 				}
+			case "noop":
+				// a response without events (progress notification) must change nothing and end nothing
+				classes["empty-watch-response"] = true
+				fake.SendEmpty()
+				kit.Wait()
+				if !check(what, nil) {
+					return
+				}
+			case "evs":
+				// several events in ONE live watch response
+				var gap []internal.C15Gap
+				var evs []c15LogEv
+				for _, e := range o.Mid {
+					g := m.toggle(p, e, false)
+					evs = append(evs, g)
+					gap = append(gap, internal.C15Gap{Del: g.del, Key: g.key, Val: g.val})
+				}
+				if len(gap) == 0 {
+					continue
+				}
+				classes["live-response-with-several-events"] = true
+				// several watchers work through the response concurrently, at different speeds: a join
+				// from inside a listener would race with them (see rule join-race) — listeners stay passive
+				attachOn.Store(false)
+				fake.ApplyBatch(gap)
+				for _, g := range evs {
+					delete(addedInOutage[p], g.key)
+					m.seen(p, g.del, g.key, g.val, false)
+				}
+				kit.Wait()
+				attachOn.Store(true)
+				pump(nil)
+				if !check(what, nil) {
+					return
+				}
+			case "bulk":
+				// N further instances register (distinct values) or, if they are registered, all expire;
+				// delivered in responses of up to 100 events, or all missed
+				n := o.N
+				if n < 1 || n > 2000 {
+					continue
+				}
+				classes[fmt.Sprintf("bulk-%d-keys", n)] = true
+				attachOn.Store(false) // multi-event responses, see "evs"
+				var gap []internal.C15Gap
+				flush := func() {
+					if len(gap) > 0 {
+						fake.ApplyBatch(gap)
+						gap = nil
+						kit.Wait()
+					}
+				}
+				for k := 0; k < n; k++ {
+					g := m.toggle(p, c15Ev{Key: 1000 + k, Val: 1000 + k, NV: true}, o.M)
+					if o.M {
+						fake.Apply(g.del, g.key, g.val, true)
+						m.missed(p, g.val)
+						continue
+					}
+					m.seen(p, g.del, g.key, g.val, false)
+					gap = append(gap, internal.C15Gap{Del: g.del, Key: g.key, Val: g.val})
+					if len(gap) == 100 {
+						flush()
+					}
+				}
+				flush()
+				kit.Wait()
+				attachOn.Store(true)
+				pump(nil)
+				if !check(what, nil) {
+					return
+				}
+			case "churn":
+				// a long-lived cluster: N delivered events on six keys, a closed watch stream every 199
+				// events and a reload half-way, judged only at the end
+				n := o.N
+				if n < 1 || n > 5000 || len(m.subs) == 0 {
+					continue
+				}
+				if n >= 1000 {
+					classes["churn>=1000-events"] = true
+				}
+				classes["churn"] = true
+				rng := uint64(o.Val)*2654435761 + 12345
+				for j := 0; j < n; j++ {
+					rng = rng*6364136223846793005 + 1442695040888963407
+					e := m.toggle(p, c15Ev{Key: int(rng>>33) % 6, Val: int(rng>>40) % 4, NV: (rng>>50)%8 == 0}, false)
+					fake.Apply(e.del, e.key, e.val, false)
+					delete(addedInOutage[p], e.key)
+					m.seen(p, e.del, e.key, e.val, false)
+					kit.Wait()
+					switch {
+					case j == n/2:
+						if !reloadOp(what+" (reload half-way)", c15Op{K: "reload"}) {
+							return
+						}
+					case j%199 == 198:
+						fake.Break("close", nil)
+						kit.Wait()
+						pump(nil)
+					}
+				}
+				if !check(what, nil) {
+					return
+				}
 			case "brk":
 				classes["break-"+o.Md] = true
 				if o.Md == "stall" {
@@ -564,6 +792,10 @@ func c15Interp(t *testing.T, c c15Case) (v kit.Verdict) {
 				if o.N > 0 {
 					classes["get-errors"] = true
 					fake.FailGets(o.N)
+				}
+				if o.H > 0 {
+					classes["get-black-hole-until-timeout"] = true
+					fake.HangGets(o.H)
 				}
 				for _, q := range m.subs {
 					if q.p == p {
@@ -613,6 +845,10 @@ func c15Interp(t *testing.T, c c15Case) (v kit.Verdict) {
 				if o.X {
 					opts = append(opts, discov.Exclusive())
 				}
+				if o.O2 {
+					classes["options-passed-twice"] = true
+					opts = append(opts, opts...)
+				}
 				// with racing events the number and order of notifications depends on the scheduler and a
 				// concurrent Monitor of the same key is not safe on the unmodified tree: listeners stay
 				// passive until the join has settled
@@ -646,51 +882,7 @@ func c15Interp(t *testing.T, c c15Case) (v kit.Verdict) {
 					return
 				}
 			case "reload":
-				if len(m.subs) == 0 {
-					continue
-				}
-				if o.N > 0 {
-					classes["get-errors"] = true
-					fake.FailGets(o.N)
-				}
-				var mids []c15LogEv
-				// model: every watched prefix is snapshotted; mid events hit prefix p after its snapshot
-				for q := range m.store {
-					if hasSub(m, q) {
-						m.loadShadow(q)
-					}
-				}
-				for _, s := range m.subs {
-					if s.dirty && s.x {
-						for val := range s.touched {
-							m.xUnknown(s, val)
-						}
-					}
-					s.dirty = false
-					s.touched = map[string]bool{}
-				}
-				if hasSub(m, p) {
-					for _, e := range o.Mid {
-						mids = append(mids, m.toggle(p, e, false))
-					}
-				}
-				if len(mids) > 0 {
-					classes["events-between-snapshot-and-watch"] = true
-					fake.AfterNextGet(c15Prefixes[p]+"/", func() {
-						for _, e := range mids {
-							fake.Apply(e.del, e.key, e.val, false)
-						}
-					})
-				}
-				reloads++
-				if !internal.C15Reload([]string{eps}, fake) {
-					fail = what + ": harness: no cluster to reload"
-					return
-				}
-				time.Sleep(time.Duration(o.N)*time.Second + 50*time.Millisecond)
-				kit.Wait()
-				pump(nil) // the new watchers replay the events after their snapshots
-				if !check(what, nil) {
+				if !reloadOp(what, o) {
 					return
 				}
 			}
@@ -753,10 +945,15 @@ func hasSub(m *c15Model, p int) bool {
 
 func c15Gen(rt *rapid.T) c15Case {
 	c := c15Case{
-		Rev0:  rapid.SampledFrom([]int{1, 1, 7, 100}).Draw(rt, "rev0"),
+		Rev0:  rapid.SampledFrom([]int64{1, 1, 1, 7, 100, 1<<31 - 1, 1 << 32, 1 << 53, 1 << 62}).Draw(rt, "rev0"),
 		Batch: rapid.Bool().Draw(rt, "batch"),
 	}
+	if rapid.IntRange(0, 3).Draw(rt, "hasalpha") == 0 {
+		c.A = rapid.IntRange(1, 7).Draw(rt, "alphabet")
+	}
 	n := rapid.IntRange(3, 36).Draw(rt, "nops")
+	// bulk/churn ops are expensive: one per case, in one case of 40
+	heavyCase, heavy := rapid.IntRange(0, 39).Draw(rt, "heavycase") == 0, 0
 	var nsub [2]int
 	outage, dirty := false, false
 
@@ -790,13 +987,23 @@ func c15Gen(rt *rapid.T) c15Case {
 		return rapid.IntRange(1, 2).Draw(rt, "nerr")
 	}
 
+	hangs := func() int {
+		if rapid.IntRange(0, 9).Draw(rt, "hashang") != 0 {
+			return 0
+		}
+		return 1
+	}
 	for i := 0; i < n; i++ {
 		var kinds []string
 		switch {
 		case nsub[0]+nsub[1] == 0:
 			kinds = []string{"sub", "sub", "sub", "ev", "ev", "ev"}
 		default:
-			kinds = []string{"ev", "ev", "ev", "ev", "ev", "ev", "ev", "brk", "brk", "reload"}
+			kinds = []string{"ev", "ev", "ev", "ev", "ev", "ev", "ev", "brk", "brk", "reload", "evs", "noop"}
+			if heavyCase && heavy == 0 && (i == n-1 || rapid.IntRange(0, 5).Draw(rt, "heavy") == 0) {
+				kinds = []string{"bulk", "bulk", "churn"}
+				heavy++
+			}
 			if nsub[0]+nsub[1] < 4 {
 				kinds = append(kinds, "sub")
 			}
@@ -819,6 +1026,21 @@ func c15Gen(rt *rapid.T) c15Case {
 			if o.M && nsub[o.P] > 0 {
 				dirty = true
 			}
+		case "evs":
+			o.P = pickPrefix("evsp")
+			for j := rapid.IntRange(2, 4).Draw(rt, "nevs"); j > 0; j-- {
+				o.Mid = append(o.Mid, ev())
+			}
+		case "bulk":
+			o.P = pickPrefix("bulkp")
+			o.N = rapid.SampledFrom([]int{33, 100, 255, 256, 1000}).Draw(rt, "bulkn")
+			o.M = rapid.IntRange(0, 3).Draw(rt, "bulkmissed") == 0
+			if o.M && nsub[o.P] > 0 {
+				dirty = true
+			}
+		case "churn":
+			o.N = rapid.SampledFrom([]int{200, 1000, 1000, 3000}).Draw(rt, "churnn")
+			o.Val = rapid.IntRange(0, 1000).Draw(rt, "churnseed")
 		case "brk":
 			o.Md = rapid.SampledFrom([]string{"stall", "stall", "close", "cancel", "error"}).Draw(rt, "mode")
 			outage = o.Md == "stall" || rapid.Bool().Draw(rt, "outage")
@@ -839,11 +1061,14 @@ func c15Gen(rt *rapid.T) c15Case {
 				o.At = rapid.IntRange(1, 4).Draw(rt, "attachat")
 			}
 			o.N = getErrs()
+			o.H = hangs()
+			o.O2 = rapid.IntRange(0, 5).Draw(rt, "opts2") == 0
 			o.Mid = mids()
 			nsub[o.P]++
 		case "reload":
 			o.P = pickPrefix("relp")
 			o.N = getErrs()
+			o.H = hangs()
 			o.Mid = mids()
 			outage, dirty = false, false
 		}
@@ -856,6 +1081,6 @@ func c15Gen(rt *rapid.T) c15Case {
 }
 
 func TestVerif_C15_converge(t *testing.T) {
-	kit.Run(t, "C15", "converge", kit.Opts{Quick: 10000, Thorough: 1000000}, c15Gen,
+	kit.Run(t, "C15", "converge", kit.Opts{Quick: 10000, Thorough: 600000}, c15Gen,
 		func(c c15Case) kit.Verdict { return c15Interp(t, c) })
 }
